@@ -90,6 +90,8 @@ class CodeHooks(S.StatusHooks):
         if path.endswith("HashMap::get") and any(a.deref_val(st, x) == ("str", "FAIL") for x in args[1:]):
             return [(("enum", ai.OPTION, 1, (("sym", "FAILSET"),)), mon.set(test_fail=True)),
                     (("enum", ai.OPTION, 0, ()), mon)]
+        if path.endswith("HashMap::contains_key") and any(a.deref_val(st, x) == ("str", "FAIL") for x in args[1:]):
+            return [(("bool", True), mon.set(test_fail=True)), (("bool", False), mon)]
         if path.endswith("TestCase::has_failures"):
             return [(("bool", True), mon.set(test_fail=True)), (("bool", False), mon)]
         return None
@@ -518,7 +520,8 @@ def structured_parse_closure(ctx, cr):
 
     class H(CodeHooks):
         def inline(self, a, st, k, fn):
-            return k.startswith(key + "::{closure") or CodeHooks.inline(self, a, st, k, fn)
+            # the evaluator's own private methods (a step of evaluate split off into a helper) and closures are part of the unit
+            return k.startswith(key + "::{closure") or (k.startswith(ADT + "::") and k != key) or CodeHooks.inline(self, a, st, k, fn)
 
         def extra_call(self, a, st, term, callee, args):
             decl = M.norm_path(callee.get("decl", ""))
